@@ -64,7 +64,9 @@ def run_async(graph, values, runner=None, **kw) -> Outcome:
 
 
 def call_multiset(log):
-    return Counter((f, a) for f, a in log)
+    from .build import freeze
+
+    return Counter((f, freeze(a)) for f, a in log)  # arguments may hold lists (outputs of mapping nodes)
 
 
 class Recorder(EventProcessor):
